@@ -93,6 +93,8 @@ def mechanism(v, dg):
   if dg:
     if dg.get("alias"):
       return c01_diag.K_ALIAS
+    if dg.get("ambiguous_store"):
+      return c01_diag.K_AMBIG_STORE
     if dg.get("site"):
       return c01_diag.K_SITE
     vw = dg.get("view") or {}
@@ -204,6 +206,10 @@ def judge(src, trace, res, diag=None):
               dg["site"] = st
           tree_a = pyast.parse(trace["src"])
           ex_a = set(trace.get("executed_lines") or ())
+          if res.ctx is not None and defs is not None:
+            amb = c01_diag.ambiguous_store_signature(res.ctx, defs, trace, tree_a, gname, attr, ex_a)
+            if amb:
+              dg["ambiguous_store"] = amb
           sites_a = {(q.split('.')[-1], ln) for q, ln, _ in trace["returns"]}
           for callee in c01_diag.attr_store_callees(tree_a, attr, ex_a):
             nrc = c01_diag.notrun_callee_signature(tree_a, callee, ex_a, sites_a)
